@@ -482,6 +482,7 @@ func init() { registerReplay("C06", propC06) }
 
 const c06Rule = "rapid-generated in-process calls: cloner (default, CodecCloner, CloneFunc, CopyFunc) x RPC kind x message lists (bytes, maps, repeated Any, unknown fields) x generated or dynamic messages on either side x receive destinations pre-filled with another message x sender reusing (and immediately overwriting) one object for all sends x unary calls ended by cancellation before the handler decodes (schedule point unary.server.start: server held, call cancelled, Invoke returns, caller overwrites its request, server released); " +
 	"oracle: received == sent exactly (pre-filled destinations overwritten), flipping every reachable byte of the sender's objects after the call leaves the receiver's unchanged and vice versa (requests and responses), a handler that decodes after Invoke returned sees the request as sent, never the caller's later content; " +
+	"also generated since the seeded rounds: empty messages re-filled by the sender, a unary call abandoned on cancellation whose caller then reuses request and response objects (the handler must still decode the request as sent; its late response must not be written into the caller's message); " +
 	"non-trivial = a message with >=2 populated reference-typed fields, or an early end; distinct by case hash"
 
 func TestC06(t *testing.T) {
